@@ -46,6 +46,9 @@ let dispatch (f : string array) : string option =
       (* hist <mode> <envspec> <op>... *)
       let ops = Array.to_list (Array.sub f 3 (Array.length f - 3)) in
       Some (Memdrv.run_hist (parse_env f.(2)) ops)
+  | "wfcheck" ->
+      (* wfcheck <snapshot>: the extracted WF checker on a state snapshot (of the implementation) *)
+      Some (try out_bool (api_wf_b (Memdrv.parse_snapshot f.(1))) with _ -> "B:0")
   | "expand" -> Some (out_res out_str (api_expand (parse_env f.(1)) (a 2)))
   | "abs_m" | "abs_s" -> Some (out_res out_str (api_abs (parse_env f.(1)) (a 2) (a 3)))
   | "xdg" ->
